@@ -246,7 +246,7 @@ Ltac leaf :=
 
 Ltac crush :=
   repeat (match goal with
-  | |- context [match ?s with [] => _ | _ :: _ => _ end] => is_var s; destruct s as [|[| ? | ? | | ] ?]
+  | |- context [match ?s with [] => _ | _ :: _ => _ end] => is_var s; destruct s as [|[| ? | ? | | ? | ] ?]
   | |- context [if ?b then _ else _] => destruct b eqn:?
   end; cbn beta iota); leaf.
 
@@ -261,7 +261,7 @@ Proof.
   destruct (match cache_get_scheme (cf_flavour cf) c (rq_host rq) with
             | Some SchBasic => _ | Some SchBearer => _ | _ => _ end) as [attempted a1].
   simpl in H1.
-  destruct script as [|[| hdr | id | | ] script1]; try (leaf; fail).
+  destruct script as [|[| hdr | id | | sid | ] script1]; try (leaf; fail).
   destruct (parse hdr) as [[| |] ps] eqn:Ech; try (leaf; fail).
   - (* Basic *)
     unfold fetch_basic, final_send. crush.
@@ -353,7 +353,8 @@ Definition outcome_ok (cf : config) (rq : request) (evs : list event) (r : resul
   | RErr EMissing =>
     c_user (cf_creds cf (rq_host rq)) && c_pass (cf_creds cf (rq_host rq)) = false
   | RErr EFetch => exists s, last evs no_event = (s, AFail) /\ is_reg (s, AFail) = false
-  | RErr ERewind => rq_body rq = BOnce
+  | RErr ERewind => rewind_ok (rq_body rq) = false
+  | RErr ECred => cf_cred_err cf (rq_host rq) = true
   | RErr ETransport => exists s, last evs no_event = (s, AErr)
   | RBad => True
   end.
@@ -363,13 +364,13 @@ Ltac bleaf :=
   try (eexists _, _, _; reflexivity);
   try (eexists _, _, _, _; split; [reflexivity | first [left; reflexivity | right; eexists; eassumption]]);
   try (eexists; split; reflexivity);
-  try (match goal with |- rq_body ?r = BOnce => destruct (rq_body r); simpl in *; congruence end);
+  try assumption;
   try (match goal with |- c_user ?x && c_pass ?x = false =>
          destruct (c_user x), (c_pass x), (c_refresh x); simpl in *; congruence end).
 
 Ltac bcrush :=
   repeat (match goal with
-  | |- context [match ?s with [] => _ | _ :: _ => _ end] => is_var s; destruct s as [|[| ? | ? | | ] ?]
+  | |- context [match ?s with [] => _ | _ :: _ => _ end] => is_var s; destruct s as [|[| ? | ? | | ? | ] ?]
   | |- context [if ?b then _ else _] => destruct b eqn:?
   end; cbn beta iota); bleaf.
 
@@ -380,7 +381,7 @@ Proof.
   unfold do_request.
   destruct (match cache_get_scheme (cf_flavour cf) c (rq_host rq) with
             | Some SchBasic => _ | Some SchBearer => _ | _ => _ end) as [attempted a1].
-  destruct script as [|[| hdr | id | | ] script1]; try (bleaf; fail).
+  destruct script as [|[| hdr | id | | sid | ] script1]; try (bleaf; fail).
   destruct (parse hdr) as [[| |] ps] eqn:Ech; try (bleaf; fail).
   - unfold fetch_basic, final_send. bcrush.
   - set (scopes := if is_empty (get_param s_scope ps) then _ else _).
@@ -403,8 +404,8 @@ Qed.
 Lemma valid_credentials_succeed clean cf c rq script :
   let '(evs, c', r) := do_request clean parse cf c rq script in
   r <> RBad ->
-  rq_body rq <> BOnce ->
-  r <> RErr ENoCred -> r <> RErr EMissing ->
+  rewind_ok (rq_body rq) = true ->
+  r <> RErr ENoCred -> r <> RErr EMissing -> r <> RErr ECred ->
   (forall s, ~ In (s, AFail) evs) ->
   (forall s, ~ In (s, AErr) evs) ->
   (forall h a hdr, ~ In (SReg h a true, A401 hdr) evs) ->
@@ -415,8 +416,8 @@ Proof.
   pose proof (do_request_budget clean cf c rq script) as B.
   destruct (do_request clean parse cf c rq script) as [[evs c'] r].
   destruct B as (B1 & B2 & O).
-  intros Hbad Hbody Hnc Hmiss Hfail Herr Hfresh Hknown.
-  destruct r as [[|]|[| | | |]|]; simpl in O; try congruence.
+  intros Hbad Hbody Hnc Hmiss Hce Hfail Herr Hfresh Hknown.
+  destruct r as [[|]|[| | | | |]|]; simpl in O; try congruence.
   - exfalso. destruct O as (h & a & fresh & hdr & L & [->|(ps & P)]).
     + apply (Hfresh h a hdr). apply (last_in _ _ _ L). discriminate.
     + apply (Hknown (SReg h a fresh) hdr ps); auto. apply (last_in _ _ _ L). discriminate.
@@ -452,7 +453,7 @@ Ltac fleaf :=
 
 Ltac fcrush :=
   repeat (match goal with
-  | |- context [match ?s with [] => _ | _ :: _ => _ end] => is_var s; destruct s as [|[| ? | ? | | ] ?]
+  | |- context [match ?s with [] => _ | _ :: _ => _ end] => is_var s; destruct s as [|[| ? | ? | | ? | ] ?]
   | |- context [if ?b then _ else _] => destruct b eqn:?
   end; cbn beta iota); fleaf.
 
@@ -467,7 +468,7 @@ Proof.
   unfold do_request.
   destruct (match cache_get_scheme (cf_flavour cf) c (rq_host rq) with
             | Some SchBasic => _ | Some SchBearer => _ | _ => _ end) as [attempted a1].
-  destruct script as [|[| hdr | id | | ] script1]; try (fleaf; fail).
+  destruct script as [|[| hdr | id | | sid | ] script1]; try (fleaf; fail).
   destruct (parse hdr) as [[| |] ps] eqn:Ech; try (fleaf; fail).
   - unfold fetch_basic, final_send. fcrush.
   - set (scopes := if is_empty (get_param s_scope ps) then _ else _).
@@ -534,7 +535,7 @@ Ltac kleaf :=
 
 Ltac kcrush :=
   repeat (match goal with
-  | |- context [match ?s with [] => _ | _ :: _ => _ end] => is_var s; destruct s as [|[| ? | ? | | ] ?]
+  | |- context [match ?s with [] => _ | _ :: _ => _ end] => is_var s; destruct s as [|[| ? | ? | | ? | ] ?]
   | |- context [if ?b then _ else _] => destruct b eqn:?
   end; cbn beta iota); kleaf.
 
@@ -551,7 +552,7 @@ Proof.
   destruct (match cache_get_scheme (cf_flavour cf) c (rq_host rq) with
             | Some SchBasic => _ | Some SchBearer => _ | _ => _ end) as [attempted a1].
   simpl in H1.
-  destruct script as [|[| hdr | id | | ] script1]; try (kleaf; fail).
+  destruct script as [|[| hdr | id | | sid | ] script1]; try (kleaf; fail).
   destruct (parse hdr) as [[| |] ps] eqn:Ech; try (kleaf; fail).
   - unfold fetch_basic, final_send. kcrush.
   - cbv zeta. unfold fetch_bearer_plan, final_send.
@@ -559,6 +560,41 @@ Proof.
       (destruct (str_eqb _ attempted) eqn:Ek; [kcrush|];
        match goal with |- context [cache_get_token ?f ?c0 ?h0 SchBearer ?k] =>
          destruct (cache_get_token f c0 h0 SchBearer k) as [tok2|] eqn:E2 end; kcrush).
+Qed.
+
+(* ---------- per-call statements lifted to every history ---------- *)
+Lemma run_history_lift clean cf (P : cc -> request -> list answer -> list event -> result -> Prop) :
+  (forall c rq script, let '(evs, c', r) := do_request clean parse cf c rq script in P c rq script evs r) ->
+  forall hist c,
+    Forall2 (fun rs out => exists c0, P c0 (fst rs) (snd rs) (fst out) (snd out))
+            hist (fst (run_history clean parse cf c hist)).
+Proof.
+  intros HP. induction hist as [|[rq script] hist IH]; intro c; simpl; [constructor|].
+  pose proof (HP c rq script) as D.
+  destruct (do_request clean parse cf c rq script) as [[evs c'] r].
+  specialize (IH c'). destruct (run_history clean parse cf c' hist) as [rest c'']. simpl in *.
+  constructor; auto. exists c. exact D.
+Qed.
+
+(* every call of every history: budget, outcome classification, nothing after a failed
+   send, re-used tokens only from the call's own keys *)
+Lemma history_budget_and_reuse clean cf hist c :
+  Forall2 (fun rs out => exists c0,
+             (reg_sends (fst out) <= 3)%nat /\ (fetches (fst out) <= 1)%nat /\
+             outcome_ok cf (fst rs) (fst out) (snd out) /\
+             stops_after_failure (fst out) /\
+             Forall (cached_send_ok clean (cf_flavour cf) c0 (fst rs)) (fst out))
+          hist (fst (run_history clean parse cf c hist)).
+Proof.
+  apply (run_history_lift clean cf (fun c0 rq script evs r =>
+    (reg_sends evs <= 3)%nat /\ (fetches evs <= 1)%nat /\ outcome_ok cf rq evs r /\
+    stops_after_failure evs /\ Forall (cached_send_ok clean (cf_flavour cf) c0 rq) evs)).
+  intros c0 rq script.
+  pose proof (do_request_budget clean cf c0 rq script) as B.
+  pose proof (do_request_failures clean cf c0 rq script) as F.
+  pose proof (do_request_cached_sends clean cf c0 rq script) as K.
+  destruct (do_request clean parse cf c0 rq script) as [[evs c'] r].
+  destruct B as (B1 & B2 & B3). destruct F as (F1 & _). repeat split; auto.
 Qed.
 
 End WithParse.
